@@ -475,43 +475,40 @@ func init() {
 						}
 						cf := cl.Fn.(*ssa.Function)
 						hasClose, hasRemove := false, false
-						eachCall(cf, func(ci ssa.CallInstruction) {
-							if f := calleeFunc(ci); f != nil {
-								if f.FullName() == "(*os.File).Close" {
-									hasClose = true
+						// the closure itself or a helper of the package it delegates to
+						var scanCalls func(f *ssa.Function, depth int)
+						scanCalls = func(f *ssa.Function, depth int) {
+							eachCall(f, func(ci ssa.CallInstruction) {
+								if fo := calleeFunc(ci); fo != nil {
+									if fo.FullName() == "(*os.File).Close" {
+										hasClose = true
+									}
+									if fo.FullName() == "os.Remove" {
+										hasRemove = true
+									}
 								}
-								if f.FullName() == "os.Remove" {
-									hasRemove = true
+								if sc := ci.Common().StaticCallee(); sc != nil && depth > 0 && fnPkgPath(sc) == fnPkgPath(cf) && len(sc.Blocks) > 0 {
+									scanCalls(sc, depth-1)
 								}
-							}
-						})
+							})
+						}
+						scanCalls(cf, 2)
 						if !captures || !hasClose || !hasRemove {
 							why = fmt.Sprintf("cleanup closure: captures file=%v closes=%v removes=%v", captures, hasClose, hasRemove)
 							continue
 						}
 						// the file is removed on every path on which the closure reports success
-						removeSet := map[ssa.Instruction]bool{}
-						eachCall(cf, func(ci ssa.CallInstruction) {
-							if f := calleeFunc(ci); f != nil && f.FullName() == "os.Remove" {
-								removeSet[ci] = true
-							}
-						})
-						skips := false
-						for _, ret := range returnsOf(cf) {
-							cei := errorResultIndex(cf.Signature)
-							if cei >= 0 {
-								v := retVal(ret, cei)
-								if v != nil && (definitelyNonNilError(v) || nonNilByGuard(cf, ret, v)) {
-									continue
+						// (directly or through a helper that does so on all of its own success paths)
+						rm, _ := p.MustFuncs()
+						rm = map[*types.Func]bool{}
+						for _, pkg := range p.SSA.AllPackages() {
+							if pkg.Pkg != nil && pkg.Pkg.Path() == "os" {
+								if fo, ok := pkg.Pkg.Scope().Lookup("Remove").(*types.Func); ok {
+									rm[fo] = true
 								}
-								if c2, ok := v.(*ssa.Call); ok && removeSet[c2] {
-									continue
-								}
-							}
-							if _, reach := reachAfter(cf, nil, ret, nil, removeSet); reach {
-								skips = true
 							}
 						}
+						skips := !newSuccSummary(p, rm).wrapper(cf, wrapperDepth)
 						if skips {
 							why = "the cleanup closure can report success without having removed the spill file (an error of Close answered with `return nil` leaves the file on disk)"
 							continue
